@@ -31,8 +31,21 @@ Positive(e, prm, flt) ==
 RECURSIVE HasNode(_, _)
 HasNode(e, kind) == e.k = kind \/ (e.k \in {"union", "cut", "and", "prod"} /\ (HasNode(e.l, kind) \/ HasNode(e.r, kind)))
                     \/ (e.k \in {"trans", "rot", "bd"} /\ HasNode(e.d, kind))
+\* a call that exceeds the watchdog is judged "does not terminate" only where no rejection step of the expression is slow for a good
+\* reason: an intersection / cut (at any depth) that keeps less than 1/20 of the lattice points of the operand it draws from, at some
+\* parameter row of the call, needs hundreds of proposals per point -- finite, but not within the budget (an operand with NO lattice
+\* point is the acknowledged deviation bool_empty_operand, see below)
+LatCount(e, prm) == Cardinality({p \in Lat \X Lat : In(e, EnvQ(e, prm, p[1], p[2]))})
+RECURSIVE SlowRejection(_, _)
+SlowRejection(e, prm) ==
+    CASE e.k \in {"cut", "and"} -> (SpaceOf(e) = <<<<"x", 2>>>> /\ LatCount(e, prm) >= 1 /\ LatCount(e, prm) * 20 < LatCount(e.l, prm))
+                                    \/ SlowRejection(e.l, prm) \/ SlowRejection(e.r, prm)
+      [] e.k = "union" -> SlowRejection(e.l, prm) \/ SlowRejection(e.r, prm)
+      [] e.k \in {"trans", "rot"} -> SlowRejection(e.d, prm)
+      [] OTHER -> FALSE
 CallClause(t, c) ==
     IF c.exc = "skipped" THEN "ok"
+    ELSE IF c.exc = "hang" /\ ~t.scenario.boundary /\ (\E r \in (IF c.prm = <<>> THEN {<<>>} ELSE {c.prm[i] : i \in DOMAIN c.prm}) : SlowRejection(E(t), r)) THEN "ok"
     ELSE IF c.exc = "hang" THEN "sampling-does-not-terminate"
     ELSE IF c.exc # "" THEN "sampling-failed:" \o c.exc
     ELSE IF \E i \in DOMAIN c.rows : ~RowOK(t, c, c.rows[i]) THEN
